@@ -55,11 +55,12 @@ Fixpoint writes_then_unlock (m : mutex) (l : list op) : bool :=
   | _ => false
   end.
 
-(* RLock; Read; RUnlock  [ Lock; Write*; Unlock ]   -- the event language of one call of the protocol in
-   RG.Locks.Cache (hit / miss+error / miss+store; the implementation stores once in findTypeNoCache and once more
-   in FindType, the same value under the same write lock) *)
+(* nothing  |  RLock; Read; RUnlock  [ Lock; Write*; Unlock ]   -- the event language of one call of the protocol in
+   RG.Locks.Cache (answer of the calling package's dependencies: neither the lock nor the cache is touched / hit /
+   miss+error / miss+store) *)
 Definition conforms (m : mutex) (f : field) (p : list op) : bool :=
   match filter (on_mf m f) p with
+  | [] => true
   | RLock _ :: Read _ :: RUnlock _ :: rest =>
       match rest with
       | [] => true
@@ -71,6 +72,8 @@ Definition conforms (m : mutex) (f : field) (p : list op) : bool :=
 
 Local Open Scope N_scope.
 
+Example conforms_dependency_answer : conforms 0 3 [RLock 1; Read 4; RUnlock 1] = true.
+Proof. reflexivity. Qed.
 Example conforms_hit : conforms 0 3 [RLock 0; Read 3; RUnlock 0] = true.
 Proof. reflexivity. Qed.
 Example conforms_miss : conforms 0 3 [RLock 0; Read 3; RUnlock 0; Lock 0; RLock 1; Read 4; RUnlock 1; Write 3; Write 3; Unlock 0] = true.
